@@ -294,10 +294,13 @@ def oracle(case):
             if e2 != edges:
                 fails.append(dict(clause="bipartite-roundtrip", detail="view %d %r: reactions %r came back as %r" % (vi, fl, edges, e2)))
             if fl["mol"] and mol_attr:
+                # every label of a species that occurs in a reaction comes back, and nothing is invented
+                # (a label on a kept, reaction-less species may or may not survive: the property is about reactions)
                 want = {s: m for s, m in mol.items() if s in occ}
-                if dict(H2.species_to_mol) != want:
+                got = dict(H2.species_to_mol)
+                if any(got.get(s, None) != m or s not in got for s, m in want.items()) or any(s not in mol or mol[s] != m for s, m in got.items()):
                     fails.append(dict(clause="bipartite-mol", detail="view %d %r: molecule labels %r came back as %r"
-                                      % (vi, fl, want, dict(H2.species_to_mol))))
+                                      % (vi, fl, want, got)))
         elif k == "str":
             _, inc_rule, inc_id, srt, dr, ps, pf = v
             if not (inc_rule and ps and _valid_strings_domain(edges)):
@@ -471,7 +474,7 @@ SPECIES_POOL = ["A", "B", "C", "D", "E", "F2", "G_1", "Cl2", "H2O", "e5", "Na", 
 ADV_LABELS = ["_x", "2A", "A B", "A+B", "r_1", "r_2", "R2_1", "S:A", "R:r_1", "x|y", "a>>b", "3", "A*", "-", "rule=z", "1_0", " A"]
 RULE_POOL = ["r", "R1", "R2", "k_f", "q_1", "", "r_1"]
 ADV_RULES = ["a b", "x|y", "rule=q", "id=3", "7"]
-COEFFS = [1, 1, 1, 1, 2, 2, 3, 3, 12, 36, 100, 1000, 7]
+COEFFS = [1, 1, 1, 1, 1, 2, 2, 2, 3, 3, 12, 36, 100, 1000, 7, 4096, 1234567]
 
 
 def _rand_net(rng, nsp=None, nrx=None, adversarial=False):
